@@ -247,7 +247,83 @@ def c10(run):
                         "the sandbox runs as root: 'not writable' is simulated by occupying the directory path with a regular file"]
 
 
-PROPS = {"C01": c01, "C09": c09, "C10": c10, "C11": c11, "C03": c03, "C05": c05, "C17": c17, "C02": c02, "C06": c06, "C04": c04, "C12": c12, "C13": c13, "C14": c14}
+CANDS_RULE = ("impl -> spec: the candidate driver types, in long-lived contexts under 4 phonetic option sets (English/smart quotes/ANSI), every single typeable "
+              "character, %s two-character strings over the 94 typeable characters, %s bundled auto-correct keys, 40 real base words x %s suffix keys of "
+              "suffix.json (after typing each base alone in the same context), the bases wrapped in brackets/quotes, all emoticons, %s English emoji names, and %s random "
+              "words; every returned list is logged with facts from independent oracles (okkhor transliteration of every prefix/suffix, auto-correct JSONs, the whole "
+              "dictionary scanned with the okkhor regex + own Levenshtein, suffix.json, emojicon tables, poriborton) and TLC validates each event against Candidates.tla "
+              "with Focus=%s.  Non-trivial = every validated list event.")
+
+
+def cands(run, focus, site):
+    run.sites = {site}
+    q = run.quick()
+    tlc, s = run_record_validate(run, "cands", "cands", "Trace_Cands.tla", run.pid, site, 1, shards=12 if q else 16, focus=focus, unit="event",
+                                 timeout=3000)
+    run.add(tlc, s)
+    run.rule = CANDS_RULE % (("1/6 of all" if q else "ALL 8836"), ("1/8 of the" if q else "all 2108"), ("~13 sampled" if q else "ALL 737"),
+                             ("1/4 of the" if q else "all 1389"), ("150" if q else "3000"), focus)
+    run.assumptions += ["facts are computed by the recorder for the word it proposes; the trace specification compares the proposal with its own split and skips "
+                        "fact-based clauses when they differ (texts where colon / back-tick move the word boundary)",
+                        "dictionary membership, regex match, edit distance, emoji tables and Bijoy encoding are oracle facts (outside TLA+)"]
+
+
+FCANDS_RULE = ("impl -> spec (fixed method, bundled layout): the driver types through the inverse of the layout %s prefix (up to %d characters) of %s "
+               "dictionary words, every Bengali emoji name (1007) and every emoticon by its raw key characters, wrapped in brackets / quotes / colon for a "
+               "part, rotating over 6 option sets (traditional joining, smart quotes, English, ANSI); every list is logged with facts (dictionary membership and "
+               "prefix relation of the cleaned candidate, own edit distance, emojicon tables, poriborton) and TLC validates each event against "
+               "Candidates.tla with Focus=%s.  Non-trivial = every validated list event.")
+
+
+def fcands(run, focus, site):
+    q = run.quick()
+    tlc, s = run_record_validate(run, "fcands", "fcands", "Trace_Cands.tla", run.pid, site, 1, shards=12 if q else 16, focus=focus, unit="event",
+                                 timeout=6000)
+    run.add(tlc, s)
+    return FCANDS_RULE % ("every", 6 if q else 12, "1/97 of the" if q else "ALL 159k", focus)
+
+
+def c15(run):
+    run.sites = {"fixedlist"}
+    run.rule = fcands(run, "C15", "fixedlist")
+    run.assumptions += ["dictionary facts from the JSON re-read by the harness; 'ignoring punctuation and non-joiners' = removing ASCII punctuation, danda and ZWNJ",
+                        "the recorder proposes the word; the trace specification compares with its own split (':' is punctuation in fixed mode) and skips on disagreement"]
+
+
+def c16(run):
+    run.sites = {"ansi"}
+    cands(run, "C16", "ansi")
+    r1 = run.rule
+    run.rule = r1 + "  ||  " + fcands(run, "C16", "ansi")
+    dict_pass(run)
+
+
+def c18(run):
+    run.sites = {"emoji"}
+    cands(run, "C18", "emoji")
+    r1 = run.rule
+    run.rule = r1 + "  ||  " + fcands(run, "C18", "emoji")
+
+
+def dict_pass(run):
+    """C16 data-exhaustive pass: every dictionary word (and joined forms) through the pre-edit accessor of a returned suggestion."""
+    q = run.quick()
+    tlc, s = run_record_validate(run, "enc", "enc", "Trace_Cands.tla", run.pid, "ansi", 1, shards=16, focus="C16", unit="event", timeout=6000)
+    run.add(tlc, s)
+    run.rule += ("  ||  data pass: %s word of dictionary.json, the candidates of %s bundled lower-case auto-correct keys + suffix keys typed in a real ANSI context, and every "
+                 "value (%s) the bundled layout can emit typed in a real fixed ANSI context, each through Suggestion::get_pre_edit_text: must not panic, must contain no "
+                 "Bengali-block code point, must equal poriborton's encoding" % ("every 4th" if q else "EVERY", "1/6 of the" if q else "all", "singly and after ক" if q else "singly and in every pair"))
+
+
+def c07(run):
+    cands(run, "C07", "order")
+
+
+def c08(run):
+    cands(run, "C08", "justified")
+
+
+PROPS = {"C01": c01, "C07": c07, "C08": c08, "C15": c15, "C16": c16, "C18": c18, "C09": c09, "C10": c10, "C11": c11, "C03": c03, "C05": c05, "C17": c17, "C02": c02, "C06": c06, "C04": c04, "C12": c12, "C13": c13, "C14": c14}
 
 
 def replay_file(run, path):
